@@ -83,6 +83,7 @@ SHAPES = {
         ("variable-carried-then-renamed-in-one-with", {"with-variable-carried-then-renamed"}),
         ("expression-alias-onto-existing-name", {"with-expression-alias-onto-existing-name"}),
         ("path-variable-carried-through-with", {"path-variable-carried-through-with"}),
+        ("expansion-pattern-closing-on-carried-node-in-part-followed-by-with", {"varlen-uses-earlier-binding", "rel-pattern-in-part-followed-by-with"}),
         ("pattern-predicate", {"pattern-predicate"})],
     "frame-column-missing:sN.nN": [("pattern-predicate-after-expansion", {"pattern-predicate", "varlen"})],
     "binding-referenced-without-frame:node": [
